@@ -58,11 +58,13 @@ def gen_entries(rng, n, cli_safe):
             f = rng.choice(FIELDS)
             if cli_safe:
                 # keep the hierarchy definable and regexps valid: rule values are well-formed patterns
-                f = rng.choice(["include", "exclude", "includeRegexp", "name", "unknownkey"])
+                f = rng.choice(["include", "exclude", "includeRegexp", "name", "name", "unknownkey"])
                 if f == "includeRegexp":
                     v = rng.choice(["refs/(heads|tags)/.*", ".*/main", "refs/misc/.*"])
                 elif f == "name":
-                    v = rng.choice(["Nice", "näme", "two words"])
+                    v = rng.choice(["Nice", "näme", "two words", "", "", None])
+                    if rng.random() < 0.2:
+                        sub = rng.choice(["tags", "branches", "remotes"])
                 else:
                     v = rng.choice(["refs/heads", "refs/tags/", "refs/misc", "refs/wip", "refs/remotes/origin", "multi\nline", "",
                                     "with=equals", " lead"])
@@ -213,7 +215,11 @@ def one_case(arg):
         out["sample"] = {"scopes": used, "git_reports": _show(truth)[:5], "prefixes": [x.decode() for x in prefixes[:4]]}
         # CLI stage: groups git reports are visible with the right tallies
         if cli_safe and all(_utf8(k) and (v is None or _utf8(v)) for k, v in truth):
-            ents = [(k.decode(), v.decode()) for k, v in truth if v is not None and k.startswith(b"refgroup.")]
+            # value-less entries still announce their group (a group that has nothing but such entries is a rule-less
+            # leaf, which the program documents and rejects: not a case for this stage)
+            ents = [(k.decode(), "" if v is None else v.decode()) for k, v in truth if k.startswith(b"refgroup.")]
+            ents = [(k, v) for k, v in ents if not (v == "" and k.rsplit(".", 1)[-1] in ("include", "exclude", "includeregexp", "excluderegexp")
+                                                    and (k.encode(), None) in truth)] 
             forest = S.Forest(ents)
             if forest.undefined():
                 return out
@@ -231,6 +237,28 @@ def one_case(arg):
             if js is None or js.get("reference_groups") != tallies:
                 out["viol"].append((_sig("cli/tallies-differ", truth),
                                     {"got": (js or {}).get("reference_groups"), "want": tallies, "truth": _show(truth)}))
+            # display names (only the table shows them): last `name` entry git reports for the group, the default name
+            # (last component of the symbol) when that entry is empty or has no value
+            names_truth = {}
+            for k, v in truth:
+                if k.startswith(b"refgroup.") and k.endswith(b".name") and _utf8(k) and (v is None or _utf8(v)):
+                    names_truth[k.decode()[len("refgroup."):-len(".name")]] = "" if v is None else v.decode()
+            rt = R.sizer(sizerbin, work, ["-v", "--no-progress"], env=env, tmpdir=d)
+            out["evals"] += 1
+            if rt.rc == 0 and js is not None:
+                tab = P.parse_table(rt.out, lenient=True)
+                rows = [(r_.name.decode("utf-8", "replace"), r_.value.decode("ascii", "replace")) for p_, r_ in P.rows_with_paths(tab)
+                        if p_[:2] == ("Overall repository size", "References")][1:]
+                want_rows = []
+                for sym, disp, depth in forest.display_order():
+                    if sym in tallies:
+                        if sym in names_truth:
+                            disp = names_truth[sym] if names_truth[sym] != "" else sym.rsplit(".", 1)[-1]
+                        want_rows.append((disp, str(tallies[sym])))
+                clean = all("\n" not in a and a == a.strip() and a != "" for a, _ in want_rows)
+                if clean and sorted(rows) != sorted(want_rows):
+                    out["viol"].append((_sig("cli/table-display-names-differ", truth), {"got": rows[:8], "want": want_rows[:8],
+                                                                                         "truth": _show(truth)}))
             # every group is usable as @G
             for sym in list(forest.groups)[:3]:
                 r = R.sizer(sizerbin, work, ["--json", "--no-progress", "--show-refs", "--include", "@" + sym], env=env, tmpdir=d)
